@@ -538,3 +538,79 @@ theorem setop_ops_frame (s s' : SetOp) (c : SCall) (h : stepS s c = .ok s') (hc 
       · simp at h
 
 end Pypika.B
+
+namespace Pypika.B
+open Pypika
+
+/-! ## C18 / C14 / C01 — term-level builders: each call adds its part to the wrapper it was called on, in call order,
+and leaves every other part as it was; the frame can be given once -/
+
+def isFunc : Term → Bool | .func .. => true | _ => false
+def isCase : Term → Bool | .case .. => true | _ => false
+
+/-- FILTER lists accumulate: two calls are one call with the concatenated list (a conjunction, left to right) -/
+theorem filter_filter (n : Str) (s : Option (List Str)) (args : List Term) (d : Bool) (sp : Option Str) (ef fi : Option Term)
+    (ov : Bool) (pa : List Term) (oo : List (Term × Option Ord)) (fr : Option Frame) (np : Bool) (al : Option Str)
+    (a b : List Term) :
+    (stepT (.func n s args d sp ef fi ov pa oo fr np al) (.filter a) >>= fun t => stepT t (.filter b)) =
+      stepT (.func n s args d sp ef fi ov pa oo fr np al) (.filter (a ++ b)) := by
+  simp [stepT, bind, Except.bind, pure, Except.pure, List.foldl_append]
+
+/-- the filter of a function that had none is `Criterion.all` of the list -/
+theorem filter_is_all (n : Str) (s : Option (List Str)) (args : List Term) (d : Bool) (sp : Option Str) (ef : Option Term)
+    (ov : Bool) (pa : List Term) (oo : List (Term × Option Ord)) (fr : Option Frame) (np : Bool) (al : Option Str) (cs : List Term) :
+    stepT (.func n s args d sp ef none ov pa oo fr np al) (.filter cs) =
+      .ok (.func n s args d sp ef (some (allOf cs)) ov pa oo fr np al) := rfl
+
+theorem over_accumulates (n : Str) (s : Option (List Str)) (args : List Term) (d : Bool) (sp : Option Str) (ef fi : Option Term)
+    (ov : Bool) (pa : List Term) (oo : List (Term × Option Ord)) (fr : Option Frame) (np : Bool) (al : Option Str)
+    (a b : List Term) :
+    (stepT (.func n s args d sp ef fi ov pa oo fr np al) (.over a) >>= fun t => stepT t (.over b)) =
+      .ok (.func n s args d sp ef fi true (pa ++ a ++ b) oo fr np al) := by
+  simp [stepT, bind, Except.bind, pure, Except.pure]
+
+theorem orderby_accumulates (n : Str) (s : Option (List Str)) (args : List Term) (d : Bool) (sp : Option Str) (ef fi : Option Term)
+    (ov : Bool) (pa : List Term) (oo : List (Term × Option Ord)) (fr : Option Frame) (np : Bool) (al : Option Str)
+    (a b : List Term) (o1 o2 : Option Ord) :
+    (stepT (.func n s args d sp ef fi ov pa oo fr np al) (.orderby a o1) >>= fun t => stepT t (.orderby b o2)) =
+      .ok (.func n s args d sp ef fi true pa (oo ++ a.map (fun t => (t, o1)) ++ b.map (fun t => (t, o2))) fr np al) := by
+  simp [stepT, bind, Except.bind, pure, Except.pure]
+
+/-- `rows()` / `range()`: rejected exactly when a frame is already set (`Guards.frameRaises`), otherwise it sets the frame
+    and nothing else -/
+theorem frame_once (n : Str) (s : Option (List Str)) (args : List Term) (d : Bool) (sp : Option Str) (ef fi : Option Term)
+    (ov : Bool) (pa : List Term) (oo : List (Term × Option Ord)) (fr : Option Frame) (np : Bool) (al : Option Str)
+    (kind : Str) (lo : Edge) (hi : Option Edge) :
+    (match stepT (.func n s args d sp ef fi ov pa oo fr np al) (.frame kind lo hi) with
+     | .error _ => Guard.frameRaises fr.isSome false = true
+     | .ok t => Guard.frameRaises fr.isSome false = false ∧
+         t = .func n s args d sp ef fi ov pa oo (some { kind := kind, lo := lo, hi := hi }) np al) := by
+  cases fr <;> simp [stepT, Guard.frameRaises, pure, Except.pure]
+
+/-- the clauses of a window wrapper can be given in any order: FILTER, OVER terms, ORDER BY terms, the frame, IGNORE NULLS
+    each go to their own slot -/
+theorem filter_over_commute (t : Term) (cs ps : List Term) :
+    (stepT t (.filter cs) >>= fun x => stepT x (.over ps)) = (stepT t (.over ps) >>= fun x => stepT x (.filter cs)) := by
+  cases t <;> simp [stepT, bind, Except.bind, pure, Except.pure]
+
+theorem over_orderby_commute (t : Term) (ps os : List Term) (o : Option Ord) :
+    (stepT t (.over ps) >>= fun x => stepT x (.orderby os o)) = (stepT t (.orderby os o) >>= fun x => stepT x (.over ps)) := by
+  cases t <;> simp [stepT, bind, Except.bind, pure, Except.pure]
+
+/-- CASE branches accumulate in call order; the last `else_` wins -/
+theorem when_appends (ws : List (Term × Term)) (e : Option Term) (al : Option Str) (c : Term) (v : Arg) :
+    stepT (.case ws e al) (.when c v) = .ok (.case (ws ++ [(c, wrapConst false v)]) e al) := rfl
+
+theorem else_last_wins (ws : List (Term × Term)) (e : Option Term) (al : Option Str) (a b : Arg) :
+    (stepT (.case ws e al) (.else_ a) >>= fun t => stepT t (.else_ b)) = stepT (.case ws e al) (.else_ b) := rfl
+
+theorem when_else_commute (ws : List (Term × Term)) (e : Option Term) (al : Option Str) (c : Term) (v x : Arg) :
+    (stepT (.case ws e al) (.when c v) >>= fun t => stepT t (.else_ x)) =
+      (stepT (.case ws e al) (.else_ x) >>= fun t => stepT t (.when c v)) := rfl
+
+/-- `as_`: the last alias wins, and an alias touches nothing but the alias -/
+theorem as_last_wins (t : Term) (a b : Option Str) :
+    (stepT t (.as_ a) >>= fun x => stepT x (.as_ b)) = stepT t (.as_ b) := by
+  cases t <;> simp [stepT, bind, Except.bind, pure, Except.pure, Term.withAlias]
+
+end Pypika.B
